@@ -245,6 +245,7 @@ func (v *Voter) updateContext(ev ContextChangeEvent) {
 	v.roundIndex = ev.RoundIndex
 	v.step = ev.Step
 	v.shouldCert = ev.Certificate
+	verifTrace(v, "ctx", v.round, v.roundIndex, v.step, v.shouldCert)
 
 	v.voteCache.UpdateContext(v.round, v.roundIndex)
 
@@ -296,6 +297,7 @@ func (v *Voter) judgeVoteCount(voteType VoteType, count uint32, threshold uint64
 	}
 
 	logging.Info("VoteOverCount.", "Round", v.round, "RoundIndex", v.roundIndex, VoteTypeToString(voteType), params.ValidatorKindToString(validatorType), "Count", count, "Threshold", threshold, "block", blockHash.String())
+	verifTrace(v, "quorum", voteType, v.round, v.roundIndex, blockHash, count, threshold, validatorType)
 
 	if v.voteOver[blockHash] == nil {
 		v.voteOver[blockHash] = &VoteStatus{}
@@ -431,6 +433,7 @@ func (v *Voter) vote(voteType VoteType, blockHash common.Hash, priority common.H
 	// update statistics
 	_, count := v.votesMgr.newVote(v.round, v.roundIndex, voteType, v.addr, priority, blockHash, voteInfo, stepView.ValidatorType)
 
+	verifTrace(v, "vote", voteType, v.round, v.roundIndex, blockHash, voteInfo.Votes, count, stepView.Threshold)
 	v.eventMux.AsyncPost(SendMessageEvent{Code: VoteTypeToMsgCode(voteType), Payload: ecp, Round: v.round})
 
 	//todo metrics
@@ -578,6 +581,7 @@ func (v *Voter) processVoteMsg(ev VoteMsgEvent, status MsgReceivedStatus) (error
 		}
 		add, totalCount := wrapper.newVote(msg.Round, msg.RoundIndex, voteType, addr, msg.Priority, msg.BlockHash, voteInfo, validatorType)
 		if add {
+			verifTrace(v, "count", addr, voteType, msg.Round, msg.RoundIndex, msg.BlockHash, vote.Votes, totalCount, threshold, uint8(status))
 			logging.Info("ParseVote.", "Round", msg.Round, "RoundIndex", msg.RoundIndex, VoteTypeToString(voteType), params.ValidatorKindToString(validatorType),
 				"Sub-Users", vote.Votes, "TotalCount", totalCount, "Threshold", threshold, "addr", addr.String(), "hash", msg.BlockHash.String())
 
@@ -605,6 +609,7 @@ func (v *Voter) processVoteMsg(ev VoteMsgEvent, status MsgReceivedStatus) (error
 		return nil, false
 
 	case addrDifferentVote:
+		verifTrace(v, "double", addr, voteType, msg.Round, msg.RoundIndex, msg.BlockHash)
 		if voteInfoData == nil || voteType == NextIndex {
 			return nil, false
 		}
@@ -732,6 +737,7 @@ func (v *Voter) commit(blockHash, priority common.Hash) {
 		logging.Debug("Certificate votes.", "Round", v.round, "RoundIndex", v.roundIndex, "count", count)
 	}
 
+	verifTrace(v, "commit", v.round, v.roundIndex, blockHash, len(chamberPrecommits))
 	v.eventMux.AsyncPost(ev)
 
 	logging.Debug("send CommitEvent.", "Round", v.round, "RoundIndex", v.roundIndex, "block", blockHash.String())
